@@ -58,6 +58,11 @@ func TestEjectionCap(t *testing.T) {
 	hx.Check(t, hx.N{Quick: 15000, Thorough: 160000}, func(t *rapid.T, c *hx.Case) {
 		res := fmt.Sprintf("svc-%d", atomic.AddInt64(&caseNo, 1)) // never reused: outlier rules are never cleared (see DESIGN, P20)
 		hx.Reset(hx.Epoch + uint64(rapid.IntRange(0, 999).Draw(t, "t0")))
+		// the EntryContext pool (whose results carry the filter lists) is process-wide: take out whatever earlier cases left
+		// there, so that a case depends on its own draws only and a failure shrinks and replays
+		for i := 0; i < 64; i++ {
+			chain.GetPooledContext()
+		}
 		pct := rapid.SampledFrom([]float64{0, 0.1, 0.29, 1.0 / 3, 0.5, 0.57, 0.7, 0.9, 1, -1}).Draw(t, "pct")
 		if pct < 0 {
 			pct = rapid.Float64Range(0, 1).Draw(t, "pctRandom")
@@ -79,6 +84,17 @@ func TestEjectionCap(t *testing.T) {
 		if _, err := outlier.LoadRuleOfResource(res, rule); err != nil {
 			t.Fatalf("LoadRuleOfResource: %v", err)
 		}
+		// a second service with a rule of its own whose nodes never become known (its requests name no callee): whatever
+		// the first service's requests reported, nothing may be reported for this one (floor(pct x 0) = 0)
+		res2 := res + "-idle"
+		rule2 := *rule
+		inner2 := *rule.Rule
+		inner2.Id, inner2.Resource = res2, res2
+		rule2.Rule = &inner2
+		if _, err := outlier.LoadRuleOfResource(res2, &rule2); err != nil {
+			t.Fatalf("LoadRuleOfResource: %v", err)
+		}
+		idleChecked := false
 		maxNodes := 12
 		if hx.Thorough() && rapid.IntRange(0, 9).Draw(t, "many") == 0 {
 			maxNodes = 100
@@ -154,6 +170,18 @@ func TestEjectionCap(t *testing.T) {
 				nodes[callee] = m
 			}
 			m.Complete(now2, now2-now, fail)
+			if rapid.IntRange(0, 3).Draw(t, "idleService") == 0 {
+				e2, blk2 := sentinel.Entry(res2, sentinel.WithSlotChain(chain))
+				if blk2 != nil {
+					t.Fatalf("outlier slot blocked the request: %v", blk2)
+				}
+				f2, h2 := append([]string(nil), e2.Context().FilterNodes()...), append([]string(nil), e2.Context().HalfOpenNodes()...)
+				e2.Exit()
+				if len(f2) != 0 || len(h2) != 0 {
+					t.Fatalf("t=%d request on service %s, none of whose nodes is known: reported filter nodes %v / half-open nodes %v (nodes of another service, left over in a recycled context?)", now2, res2, f2, h2)
+				}
+				idleChecked = idleChecked || len(filter) > 0
+			}
 		}
 		known := outlier.VerifNodeAddresses(res)
 		if len(known) != len(nodes) {
@@ -161,6 +189,7 @@ func TestEjectionCap(t *testing.T) {
 		}
 		c.ClassIf(capped, "cap-binds(>=2 rejecting > floor)")
 		c.ClassIf(active, "active-recovery")
+		c.ClassIf(idleChecked, "idle-service-asked-right-after-a-report-with-ejections")
 		if capped {
 			c.NonTrivial()
 		}
